@@ -30,6 +30,7 @@ from .client_exceptions import (
     ClientResponseError,
     ContentTypeError,
     InvalidURL,
+    ServerDisconnectedError,
     ServerFingerprintMismatch,
 )
 from .compression_utils import HAS_BROTLI, HAS_ZSTD
@@ -994,8 +995,14 @@ class ClientRequestBase:
         # status + headers
         status_line = f"{self.method} {path} HTTP/{v.major}.{v.minor}"
 
+        # Nothing of this request is on the wire while the trace callbacks
+        # run: bytes that arrive meanwhile were not asked for (see data_received).
+        protocol.idle = True
         # Buffer headers for potential coalescing with body
         await writer.write_headers(status_line, self.headers)
+        protocol.idle = False
+        if protocol.transport is None:
+            raise ServerDisconnectedError()
 
         task: asyncio.Task[None] | None
         if self._should_write(protocol):
